@@ -706,7 +706,8 @@ def system_truth(system, point, exact=False, band=BAND, eq_positive=False):
 # --------------------------------------------------------------------------- number pools
 DYADIC_COEFFS = [1.0, -1.0, 2.0, -2.0, 0.5, -0.5, 4.0, -4.0, 0.25, -0.25]       # +- powers of two
 DYADIC_CONSTS = [0.0, 1.0, -1.0, 2.0, -2.0, 0.5, -0.5, 3.0, -3.0, 1.5, -1.5, 4.0, -4.0, 2.5, 6.0, -0.25, 0.75, 8.0]
-SHORT_COEFFS = [1.0, -1.0, 2.0, -2.0, 3.0, -3.0, 0.5, -1.5, 7.0, 0.1, -0.1, 0.3, 2.5, 10.0, -0.7, 1, -1, 2, 3]
+SHORT_COEFFS = [1.0, -1.0, 2.0, -2.0, 3.0, -3.0, 0.5, -1.5, 7.0, 0.1, -0.1, 0.3, 2.5, 10.0, -0.7, 1, -1, 2, 3,
+                0.05, -0.05, 0.025, -0.075, 0.002, 0.0625]      # incl. literals written with a leading '0.0'
 SCALE_COEFFS = [1e-6, -1e-6, 1e6, -1e6, 1e-3, 1e3, -2.5e5, 3.3e-5, 123456.789, -0.000123]
 
 
@@ -750,7 +751,7 @@ def constants(kind='mixed'):
     if kind == 'dyadic':
         return st.sampled_from(DYADIC_CONSTS)
     if kind == 'short':
-        return st.one_of(st.sampled_from(DYADIC_CONSTS), st.sampled_from([0.1, -0.3, 0.05, 10.0, 100, 0, 1, -2, 4]))
+        return st.one_of(st.sampled_from(DYADIC_CONSTS), st.sampled_from([0.1, -0.3, 0.05, 10.0, 100, 0, 1, -2, 4, 0.025, 0.002, -0.075, 0.0625]))
     return st.one_of(st.sampled_from(DYADIC_CONSTS), st.sampled_from([0.1, -0.3, 0.05, 1e-5, 1e6, -1e6, 1e-6, 100, 0, 4]),
                      st.floats(-1e6, 1e6).filter(_not_tiny), st.floats(-10.0, 10.0).filter(_not_tiny))
 
@@ -825,6 +826,9 @@ def rational_relations(draw, nvars, kind='mixed', cmps=CMPS, shapes=RATIONAL_KIN
     elif core_shape == 'x/(x+c)':
         j = draw(st.sampled_from(others))
         c = draw(constants(kind))
+        if kind != 'dyadic' and draw(st.integers(0, 2)) == 0:
+            # a pole so far from the origin that a small perturbation of a test point is absorbed
+            c = draw(st.sampled_from([1e16, -1e16, 3e15, -3e15, 1e17]))
         den = ['var', k] if float(c) == 0 and draw(st.booleans()) else ['lin', [[k, 1.0]], c]
         core = ['div', ['var', j], den]
         used = [j, k]
